@@ -259,6 +259,10 @@ def correspondence(ctx):
                 "clone per producer, every selected compatible test present, no duplicate nodes); non-trivial = more "
                 "than 3 nodes")
     try:
+        for case in gl.corpus_cases("C07"):
+            ctx.count("corpus.replayed")
+            case.pop("order", None)
+            gl.run_attributed(ctx, case, lambda c, k: run_cases(c, [k]))
         n_suites, per_suite = (140, 3) if thorough else (16, 2)
         budget = 1400 if thorough else 140
         cases = c06.gen_cases(rng, n_suites, per_suite, "large" if thorough else "small", lazy_share=0.25)
